@@ -15,6 +15,22 @@ pub struct ChecksumDatabase {
 }
 
 #[allow(dead_code)] // Integration with SyncEngine pending
+/// The `path` column: text for a path that is valid UTF-8 (as it always was), the raw bytes as a blob
+/// for any other path. Keyed by their lossy form, two names that differ only in bytes that are not
+/// valid UTF-8 shared one row, and one was given the checksum stored for the other.
+fn path_to_sql(path: &Path) -> rusqlite::types::Value {
+    match path.to_str() {
+        Some(text) => rusqlite::types::Value::Text(text.to_string()),
+        #[cfg(unix)]
+        None => {
+            use std::os::unix::ffi::OsStrExt;
+            rusqlite::types::Value::Blob(path.as_os_str().as_bytes().to_vec())
+        }
+        #[cfg(not(unix))]
+        None => rusqlite::types::Value::Text(path.to_string_lossy().into_owned()),
+    }
+}
+
 impl ChecksumDatabase {
     /// Database file name in destination directory
     const DB_FILE: &'static str = ".sy-checksums.db";
@@ -77,7 +93,7 @@ impl ChecksumDatabase {
         size: u64,
         checksum_type: &str,
     ) -> Result<Option<Checksum>> {
-        let path_str = path.to_string_lossy();
+        let path_key = path_to_sql(path);
         let (mtime_secs, mtime_nanos) = system_time_to_parts(mtime);
 
         let mut stmt = self.conn.prepare(
@@ -86,7 +102,7 @@ impl ChecksumDatabase {
         )?;
 
         let result = stmt.query_row(
-            params![path_str.as_ref(), mtime_secs, mtime_nanos, size as i64],
+            params![path_key, mtime_secs, mtime_nanos, size as i64],
             |row| {
                 let stored_type: String = row.get(0)?;
                 let checksum_blob: Vec<u8> = row.get(1)?;
@@ -136,7 +152,7 @@ impl ChecksumDatabase {
         size: u64,
         checksum: &Checksum,
     ) -> Result<()> {
-        let path_str = path.to_string_lossy();
+        let path_key = path_to_sql(path);
         let (mtime_secs, mtime_nanos) = system_time_to_parts(mtime);
         let now = SystemTime::now()
             .duration_since(UNIX_EPOCH)
@@ -154,7 +170,7 @@ impl ChecksumDatabase {
              (path, mtime_secs, mtime_nanos, size, checksum_type, checksum, updated_at)
              VALUES (?1, ?2, ?3, ?4, ?5, ?6, ?7)",
             params![
-                path_str.as_ref(),
+                path_key,
                 mtime_secs,
                 mtime_nanos,
                 size as i64,
